@@ -106,9 +106,9 @@ def run(tier):
     cases = [model_zone_to_case(z) for z in r.tagged("GENZONESER")]
     v.notes["gen_zones"] = len(cases)
     # random API-built zones
-    cases += [random_api_zone(r_) for _ in range(600 if tier == "quick" else 15000)]
+    cases += [random_api_zone(r_) for _ in range(600 if tier == "quick" else 6000)]
     # zones obtained by parsing rendered text
-    cases += [zt.text_case(gen.zt_file(r_), True) for _ in range(800 if tier == "quick" else 15000)]
+    cases += [zt.text_case(gen.zt_file(r_), True) for _ in range(800 if tier == "quick" else 6000)]
     for t in zt.repo_zone_files():
         cases.append(zt.text_case(t, True))
     good, panics, rejects, nbig = zt.run_cases(v, wd, "rt", cases)
